@@ -41,7 +41,7 @@ ASSUMPTIONS = [
 
 def budget(tier):
     if tier == "quick":
-        return dict(examples=450, shards=4)
+        return dict(examples=110, shards=4, time_s=1800)  # cap only: cold-JIT audits on a loaded machine
     return dict(examples=1500, shards=16)
 
 
